@@ -19,6 +19,10 @@ members of a batch are applied in order, so a batch whose members write the same
 Cassandra semantics encoded (for the subset)
   * a row is visible when it has a row marker (set by INSERT only) or any non-null regular cell;
   * writing null / an empty collection deletes the cell; `m[k] = null` deletes the entry;
+  * all assignments of one statement carry one timestamp: an element added and removed by the same statement is removed
+    (the tombstone wins the tie), in whatever order the assignments are written;
+  * collection elements may be timestamps (Table(elems=...)): kept as epoch milliseconds - the driver's encoder writes a
+    datetime as that number - and read back as naive UTC datetimes;
   * set + / - are idempotent unions / differences; list + appends, `x + l` prepends in the given order; map + merges;
     `m - {k}` removes entries; counters add, a missing counter counts as 0;
   * UPDATE / DELETE of regular columns need the whole primary key; statements that touch only static columns need the
@@ -28,6 +32,7 @@ Cassandra semantics encoded (for the subset)
   * IF NOT EXISTS / IF EXISTS / IF cond are evaluated on the current row; a refused statement changes nothing and
     answers one row with "[applied]" = False.
 """
+import datetime
 import re
 
 from harness.tlc import MachineryError
@@ -76,16 +81,27 @@ def tokenize(text):
     return out
 
 
+# CQL's reserved words (an unquoted one cannot be an identifier) + the operator words of relations
+RESERVED = frozenset("""ADD ALLOW ALTER AND APPLY ASC AUTHORIZE BATCH BEGIN BY COLUMNFAMILY CREATE DELETE DESC DESCRIBE DROP
+ENTRIES EXECUTE FROM FULL GRANT IF IN INDEX INFINITY INSERT INTO IS KEYSPACE LIMIT MODIFY NAN NORECURSIVE NOT NULL OF ON OR
+ORDER PRIMARY RENAME REPLACE REVOKE SCHEMA SELECT SET TABLE TO TOKEN TRUNCATE UNLOGGED UPDATE USE USING VIEW WHERE
+WITH""".split())
+OPERATOR_WORDS = frozenset(["CONTAINS", "LIKE"])
+
+
 def canon(tok):
-    """Canonical printable form of a token, used for fragment comparison (C37): quoting of identifiers and the case
-    of bare words do not matter."""
+    """Canonical printable form of a token as CQL reads it, used for fragment comparison (C37): a quoted identifier is
+    taken literally, an unquoted one is folded to lower case (so "vv" and vv are the same column, "Seq" and Seq are
+    not), reserved / operator words are words whatever their case."""
     kind, text = tok
     if kind == "ph":
         return "%" + text
     if kind == "qid":
         return "i:" + text
     if kind == "word":
-        return "w:" + text.upper()
+        if text.upper() in RESERVED or text.upper() in OPERATOR_WORDS:
+            return "w:" + text.upper()
+        return "i:" + text.lower()
     if kind == "num":
         return "n:" + text
     return "s:" + text
@@ -146,7 +162,9 @@ class _Parser(object):
         if kind == "qid":
             return text
         if kind == "word":
-            return text.lower()
+            if text.upper() in RESERVED:
+                raise CqlInvalid("syntax error: reserved word %s used as an identifier without quotes in %r" % (text, self.text[:300]))
+            return text.lower()         # an unquoted identifier is case-insensitive: folded to lower case
         self.i -= 1
         self.fail("expected an identifier, found %r" % text)
 
@@ -392,8 +410,11 @@ def placeholders(text):
 class Table(object):
     """Schema + content.  types: column -> 'int' | 'text' | 'set' | 'list' | 'map' | 'counter'."""
 
-    def __init__(self, name, partition, clustering, types, static=()):
+    def __init__(self, name, partition, clustering, types, static=(), elems=None):
+        """elems: collection column -> element type ('int' | 'timestamp'; for a map the pair (key type, value type));
+        default int.  A timestamp is kept as milliseconds since the epoch and read back as a naive UTC datetime."""
         self.name = name
+        self.elems = dict(elems or {})
         self.partition = list(partition)
         self.clustering = list(clustering)
         self.types = dict(types)
@@ -486,6 +507,42 @@ class Interp(object):
         raise CqlUnsupported("token() outside a SELECT relation")
 
     @staticmethod
+    def _elem(table, col, x, part=None):
+        """One collection element as the server stores it (the driver's encoder writes a datetime as its epoch
+        milliseconds, so both forms are the same literal)."""
+        et = table.elems.get(col, "int")
+        if isinstance(et, tuple):
+            et = et[0 if part == "key" else 1]
+        if et == "timestamp":
+            if isinstance(x, datetime.datetime):
+                if x.tzinfo is not None:
+                    x = x.astimezone(datetime.timezone.utc).replace(tzinfo=None)
+                d = x - datetime.datetime(1970, 1, 1)
+                return (d.days * 86400 + d.seconds) * 1000 + d.microseconds // 1000
+            if isinstance(x, datetime.date):
+                return (x - datetime.date(1970, 1, 1)).days * 86400000
+        if isinstance(x, bool) or not isinstance(x, int):
+            raise CqlInvalid("collection element %r of the wrong type for column %s (%s)" % (x, col, et))
+        return x
+
+    @staticmethod
+    def _read(table, col, v):
+        """A stored value as the driver hands it to the application."""
+        if v is None or col not in table.elems:
+            return _copy(v)
+        et = table.elems[col]
+
+        def rd(x, t):
+            return datetime.datetime(1970, 1, 1) + datetime.timedelta(milliseconds=x) if t == "timestamp" else x
+        if isinstance(v, set):
+            return set(rd(x, et) for x in v)
+        if isinstance(v, list):
+            return [rd(x, et) for x in v]
+        if isinstance(v, dict):
+            return dict((rd(k, et[0]), rd(x, et[1])) for k, x in v.items())
+        return v
+
+    @staticmethod
     def _typed(table, col, v, what="value"):
         """Check the Python value against the column type (what the server does with the encoded literal) and
         normalise it: null / empty collection -> None."""
@@ -508,23 +565,19 @@ class Interp(object):
                 if isinstance(v, dict) and not v:
                     return None
                 raise CqlInvalid("%s %r for column %s of type set" % (what, v, col))
-            if any(isinstance(x, bool) or not isinstance(x, int) for x in v):
-                raise CqlInvalid("set element of the wrong type in %r for column %s" % (v, col))
-            return set(v) or None
+            return set(Interp._elem(table, col, x) for x in v) or None
         if ty == "list":
             if not isinstance(v, (list, tuple)):
                 raise CqlInvalid("%s %r for column %s of type list" % (what, v, col))
-            if any(isinstance(x, bool) or not isinstance(x, int) for x in v):
-                raise CqlInvalid("list element of the wrong type in %r for column %s" % (v, col))
-            return list(v) or None
+            return [Interp._elem(table, col, x) for x in v] or None
         if ty == "map":
             if isinstance(v, (set, frozenset)) and not v:
                 return None
             if not isinstance(v, dict):
                 raise CqlInvalid("%s %r for column %s of type map" % (what, v, col))
-            if any(isinstance(k, bool) or not isinstance(k, int) for k in v):
-                raise CqlInvalid("map key of the wrong type in %r for column %s" % (v, col))
-            return dict(v) or None
+            if any(x is None for x in v.values()):
+                raise CqlInvalid("null is not supported inside collections (column %s)" % col)
+            return dict((Interp._elem(table, col, k, "key"), Interp._elem(table, col, x, "value")) for k, x in v.items()) or None
         raise CqlUnsupported("column type %s" % ty)
 
     # ---- keys
@@ -573,7 +626,7 @@ class Interp(object):
             if c in d:
                 continue
             src = p["static"] if c in table.static else (r["cells"] if r else {})
-            d[c] = _copy(src.get(c))
+            d[c] = self._read(table, c, src.get(c))
         return d
 
     def _check_conditions(self, table, st, pk, ck, params):
@@ -725,11 +778,9 @@ class Interp(object):
                     raise CqlInvalid("element assignment on column %s of type %s" % (col, ty)) if ty != "list" else \
                         CqlUnsupported("list element assignment")
                 key = self._value(a["key"], params)
-                if key is None or isinstance(key, bool) or not isinstance(key, int):
-                    raise CqlInvalid("Invalid map key %r for column %s" % (key, col))
-                if val is not None and (isinstance(val, bool) or not isinstance(val, int)):
-                    raise CqlInvalid("Invalid map value %r for column %s" % (val, col))
-                ops.append((col, "put", (key, val)))
+                if key is None:
+                    raise CqlInvalid("Invalid null map key for column %s" % col)
+                ops.append((col, "put", (self._elem(table, col, key, "key"), None if val is None else self._elem(table, col, val, "value"))))
             elif op == "plus":
                 if ty == "counter":
                     ops.append((col, "incr", self._typed(table, col, val, "increment") or 0))
@@ -753,7 +804,7 @@ class Interp(object):
                         raise CqlInvalid("map removal on column %s takes a set of keys, got %r" % (col, val))
                     if not isinstance(val, (set, frozenset, dict)):
                         raise CqlInvalid("map removal on column %s takes a set of keys, got %r" % (col, val))
-                    ops.append((col, "dropkeys", set(val)))
+                    ops.append((col, "dropkeys", set(self._elem(table, col, k, "key") for k in val)))
                 elif ty == "list":
                     raise CqlUnsupported("list subtraction")
                 else:
@@ -780,7 +831,10 @@ class Interp(object):
             if refused:
                 return answer(refused)
             p = table.part(pk, True)
-            for col, kind, arg in ops:
+            # one statement = one write timestamp: where the same element is added and removed by the same statement
+            # the tombstone wins, whatever the order of the assignments - removals are applied last
+            removal = lambda o: o[1] in ("discard", "dropkeys") or (o[1] == "put" and o[2][1] is None)       # noqa: E731
+            for col, kind, arg in [o for o in ops if not removal(o)] + [o for o in ops if removal(o)]:
                 cells = p["static"] if col in table.static else table.row(pk, ck, True)["cells"]
                 cur = cells.get(col)
                 if kind == "set":
@@ -846,9 +900,9 @@ class Interp(object):
                     raise CqlInvalid("Invalid deletion operation for non collection column %s" % col) if ty != "list" else \
                         CqlUnsupported("list element deletion")
                 key = self._value(t["key"], params)
-                if key is None or isinstance(key, bool) or not isinstance(key, int):
-                    raise CqlInvalid("Invalid map key %r for column %s" % (key, col))
-                targets.append((col, key))
+                if key is None:
+                    raise CqlInvalid("Invalid null map key for column %s" % col)
+                targets.append((col, self._elem(table, col, key, "key")))
         if targets:
             if table.counter:
                 raise CqlUnsupported("column deletion on a counter table")
